@@ -460,3 +460,44 @@ Proof.
   split; [apply R; lia|]. apply Forall_forall. intros x Hx.
   destruct (In_nth _ x 0%Z Hx) as (k & Hk & <-). apply H; [lia|]. rewrite R in Hk; lia.
 Qed.
+
+(** ** list-level product and identity (for the list form of the inverse theorem) *)
+Lemma nth_map_lt {A B} (f : A -> B) l i d d' : i < length l -> nth i (map f l) d' = f (nth i l d).
+Proof.
+  intros H. rewrite (nth_indep _ d' (f d)) by (rewrite map_length; exact H). apply map_nth.
+Qed.
+
+Lemma mat_mul_wf q n a b : 0 < n -> wf_shape n a -> wf_shape n b ->
+  wf_shape n (mat_mul q a b) /\
+  forall j k, j < n -> k < n -> ent (mat_mul q a b) j k = dot q (nth j a []) (mat_col k b).
+Proof.
+  intros Hn [La Ra] [Lb Rb]. unfold mat_mul.
+  assert (H0 : length (hd [] b) = n).
+  { destruct b as [|r0 rest]; [cbn in Lb; lia|]. apply (Rb 0 Hn). }
+  rewrite H0. split; [split|].
+  - rewrite map_length. exact La.
+  - intros j Hj. rewrite (nth_map_lt _ a j []) by lia. rewrite map_length, seq_length. reflexivity.
+  - intros j k Hj Hk. unfold ent. rewrite (nth_map_lt _ a j []) by lia.
+    rewrite nth_map_seq by lia. reflexivity.
+Qed.
+
+Lemma mat_col_nth n b k i : wf_shape n b -> i < n -> nth i (mat_col k b) 0%Z = ent b i k.
+Proof.
+  intros [L _] Hi. unfold mat_col, ent.
+  rewrite (nth_map_lt (fun r => nth k r 0%Z) b i []) by lia. reflexivity.
+Qed.
+
+Lemma mat_col_length n b k : wf_shape n b -> length (mat_col k b) = n.
+Proof. intros [L _]. unfold mat_col. rewrite map_length. exact L. Qed.
+
+Lemma mat_id_wf n : wf_shape n (mat_id n) /\
+  forall j k, j < n -> k < n -> ent (mat_id n) j k = if j =? k then 1%Z else 0%Z.
+Proof. apply (mtab_wf n (fun i j => if i =? j then 1%Z else 0%Z)). Qed.
+
+Lemma ent_ext n a b : wf_shape n a -> wf_shape n b ->
+  (forall j k, j < n -> k < n -> ent a j k = ent b j k) -> a = b.
+Proof.
+  intros [La Ra] [Lb Rb] H. apply (nth_ext a b [] []); [lia|].
+  intros j Hj. apply (nth_ext _ _ 0%Z 0%Z); [rewrite Ra, Rb; lia|].
+  intros k Hk. apply H; [lia|]. rewrite Ra in Hk; lia.
+Qed.
